@@ -727,6 +727,9 @@ func renderTx(r *Rendered, tx *Tx, ei int, line *int, emit func(*lineBuf, LineIn
 	if tx.Trail != "" {
 		b.w(tx.Trail)
 		feats["line.trailing-blanks"] = true
+		if asciiOnlyStr(tx.Trail) != tx.Trail {
+			feats["descr.trail-unicode-blank"] = true
+		}
 	}
 	emit(b, LineInfo{"header", ei, -1})
 	pi := 0
